@@ -262,7 +262,7 @@ Pin ==
   ELSE IF c.kind = "beyond" THEN "novalue"
   ELSE IF c.kind = "emptyonly" THEN (IF res.k = "ok" THEN "full" ELSE "novalue")
   ELSE IF c.kind = "brokenlist" THEN "prefix_or_err"
-  ELSE IF res.k # "ok" THEN "novalue" ELSE "none"
+  ELSE IF res.k \in {"err", "fail"} THEN "reject" ELSE IF res.k # "ok" THEN "novalue" ELSE "none"
 
 EmitCase ==
   LET c == Cases[i] IN
